@@ -128,7 +128,7 @@ def run(c):
     if "CALL_REJECTED" not in r.out:
         raise vf.FrameworkError("canary accepted")
     c.cov["canary_rejected"] = True
-    c.assumptions += ["allocation bound 32 MiB + 64 x input length, time bound 3 s + 20 ms per KiB, watchdog 12 s (quick) / 30 s (thorough) per call, 10 min per series",
+    c.assumptions += ["allocation bound 32 MiB + 64 x input length, time bound 3 s + 20 ms per KiB, watchdog 12 s (quick) / 30 s (thorough) per call, 8 x that per series",
                       "the static quantifier (all code paths / every call site of log.Fatal, os.Exit, panic) is replaced by dynamic reachability; unreached sites are not a verdict"]
 
 
